@@ -14,6 +14,18 @@ class Poly:
 
     def __init__(self, t=None):
         self.t = {k: v for k, v in (t or {}).items() if v != 0}
+        # floor_c(X) + [X % c != 0]  ==  ceil_c(X)
+        for k in [k for k in self.t if len(k) == 1 and k[0].startswith('nzmod')]:
+            a = k[0]
+            c, x = a[5:a.index('(')], a[a.index('(') + 1:-1]
+            fk = ('floor%s(%s)' % (c, x),)
+            if self.t.get(fk) == self.t.get(k) and k in self.t:
+                v = self.t.pop(k)
+                del self.t[fk]
+                ck_ = ('ceil%s(%s)' % (c, x),)
+                self.t[ck_] = self.t.get(ck_, 0) + v
+                if self.t[ck_] == 0:
+                    del self.t[ck_]
 
     @staticmethod
     def const(c):
@@ -254,6 +266,11 @@ class Normaliser:
                 return Poly.atom('%s(%s, %s)' % (sym, a, b))
             raise NotInt(ast.unparse(e))
         if isinstance(e, ast.Call):
+            inl = getattr(self, 'inliner', None)
+            if inl is not None:
+                r = inl(e, self.mod, self.cls)
+                if r is not None:
+                    return self.norm(r, env)
             if isinstance(e.func, ast.Name) and e.func.id == 'len' and len(e.args) == 1:
                 return Poly.atom('len(%s)' % self.canon(e.args[0], env))
             if isinstance(e.func, ast.Name) and e.func.id in ('int', 'byte2int') and len(e.args) == 1:
@@ -303,6 +320,9 @@ class Normaliser:
         # (x + c-1)//c  ==> ceil_c(x) when x's coefficients... keep it simple: constant term c-1
         k = p.t.get((), 0)
         rest = Poly({m: v for m, v in p.t.items() if m != ()})
+        if rest.t and all(v < 0 for v in rest.t.values()):
+            # floor((-y + k)/c) = -ceil((y - k)/c) = -floor((y - k + c - 1)/c)
+            return -self._floordiv(-p + Poly.const(c - 1), c)
         if k == c - 1:
             return Poly.atom('ceil%d(%s)' % (c, rest))
         if k == 0:
@@ -335,6 +355,8 @@ class Normaliser:
                     k = (b - self._floordiv(x, c))
                     if k.is_const():
                         return Poly.atom('ceil%d(%s)' % (c, x)) + k
+                    # [x % c != 0] as a 0/1 term: fused with floor_c(x) into ceil_c(x) by _fuse
+                    return Poly.atom('nzmod%d(%s)' % (c, x)) + b
         except NotInt:
             return None
         return None
